@@ -73,7 +73,8 @@ TNlp == Ev.op = "nlp"
     /\ Len(Ev.kw) <= Len(Ev.enh) /\ SubSeq(Ev.enh, 1, Len(Ev.kw)) = Ev.kw  \* the expanded list begins with the keywords
     /\ Cardinality(SeqSet(Ev.enh)) = Len(Ev.enh)                           \* no duplicates
     /\ (\A i, j \in 1..Len(Ev.kw) :                                       \* the user's own words keep the user's order
-            (i < j /\ Ev.kw[i] \in SeqSet(Ev.uw) /\ Ev.kw[j] \in SeqSet(Ev.uw)) => IdxIn(Ev.kw[i], Ev.uw) < IdxIn(Ev.kw[j], Ev.uw))
+            (i < j /\ Ev.kw[i] \in SeqSet(Ev.uw) /\ Ev.kw[j] \in SeqSet(Ev.uw) /\ Ev.kwsyn[i] = 0 /\ Ev.kwsyn[j] = 0)
+                => IdxIn(Ev.kw[i], Ev.uw) < IdxIn(Ev.kw[j], Ev.uw))      \* (a synonym may follow its word: such slots are exempt)
     /\ Ev.same                                                            \* analysing the same text again gives the same analysis
 
 \* C03 (a): the candidates are exactly the documents containing a content word of the query (all of them up to ten
